@@ -278,13 +278,16 @@ def queryByPosition (src : Source) (q : PosQ) : QR Result := do
 
 /-! ### id / GUID queries -/
 
+/-- `start = min(self.start, min(x.start …))`, `end = max(self.end, max(x.end …))` when anything is kept -/
+def idQueryBounds (bs be : Int) (kept : List Child) : Int × Int :=
+  match hullOf ((partKinds kept).map fun c => (c.start, c.stop)) with
+  | some (a, b) => (min bs a, max be b)
+  | none => (bs, be)
+
 /-- `_return_collection_for_id_queries` -/
 def returnForIdQueries (src : Source) (kept : List Child) : QR Result := do
   let (bs, be) ← needBounds src
-  let (start, stop) :=
-    match hullOf ((partKinds kept).map fun c => (c.start, c.stop)) with
-    | some (a, b) => (min bs a, max be b)
-    | none => (bs, be)
+  let (start, stop) := idQueryBounds bs be kept
   buildNew src kept start stop
 
 /-- a dict built by successive assignment: the LAST entry with the key wins -/
